@@ -165,6 +165,9 @@ func c10Universe(quick bool) []c10val {
 		pv("NotImplemented", "NotImplemented"),
 		pv("code", "pyfunc.__code__"),
 		pv("closure-func", "mkcell()"),
+		pv("closure-code", "mkcell().__code__"),
+		pv("[()]", "[()]"),
+		pv("[('a',)]", "[('a',)]"),
 		pv("zip", "zip([1], [2])"),
 		pv("map", "map(len, ['a'])"),
 		pv("enumerate", "enumerate([1])"),
